@@ -45,14 +45,35 @@ pub fn run(ctx: &mut Ctx) {
             slots.dedup();
             let mut c = Case::new(&format!("size-{}", sb));
             c.with_model = sb <= 140;
-            // full-size encode and decode
-            c.push(cfg.new_line("E"));
+            // full-size encode and decode; half of the time on objects that were first configured for
+            // another shard size with the SAME number of 64-byte blocks (only the tail split differs) and
+            // then reset - anything cached about the tail must follow the reset
+            let blocks = (sb + 63) / 64;
+            let others: Vec<usize> = ((blocks - 1) * 64 + 2..=blocks * 64).step_by(2).filter(|x| *x != sb).collect();
+            let reuse = !others.is_empty() && cfg.kind != "rs" && ctx.rng.chance(1, 2);
+            if reuse {
+                let prev = Cfg { sb: *ctx.rng.pick(&others), ..cfg.clone() };
+                c.push(prev.new_line("E"));
+                c.push(format!("E reset {} {} {}", cfg.k, cfg.r, sb));
+                ctx.count("object", "reset-from-same-block-count");
+            } else {
+                c.push(cfg.new_line("E"));
+                ctx.count("object", "fresh");
+            }
             for o in &originals { c.push(format!("E add {}", to_hex(o))); }
             c.push("E encode".into());
-            c.push(cfg.new_line("D"));
+            let enc_idx = c.lines.len() - 1;
+            if reuse {
+                let prev = Cfg { sb: *ctx.rng.pick(&others), ..cfg.clone() };
+                c.push(prev.new_line("D"));
+                c.push(format!("D reset {} {} {}", cfg.k, cfg.r, sb));
+            } else {
+                c.push(cfg.new_line("D"));
+            }
             for i in &go { c.push(format!("D addo {} {}", i, to_hex(&originals[*i]))); }
             for j in &gr { c.push(format!("D addr {} {}", j, to_hex(&recovery[*j]))); }
             c.push("D decode".into());
+            let dec_idx = c.lines.len() - 1;
             // per-slot runs as 2-byte shards
             let c2 = Cfg { sb: 2, ..cfg.clone() };
             for l in &slots {
@@ -67,16 +88,15 @@ pub fn run(ctx: &mut Ctx) {
             ctx.count("tail_bytes", &format!("{}", sb % 64));
             ctx.count("blocks", &format!("{}", (sb + 63) / 64));
             cases.push(c);
-            metas.push((cfg, slots, originals.len(), go.len(), gr.len()));
+            metas.push((cfg, slots, originals.len(), go.len(), gr.len(), enc_idx, dec_idx));
         }
         sb += 2;
     }
     let runs = ctx.run_cases(&cases);
     reed_solomon_simd::verif_hooks::POISON_SEED.store(0, Ordering::Relaxed);
-    for ((case, run), (cfg, slots, k, ngo, ngr)) in cases.iter().zip(runs.iter()).zip(metas.iter()) {
+    for ((case, run), (cfg, slots, k, ngo, ngr, enc_idx, dec_idx)) in cases.iter().zip(runs.iter()).zip(metas.iter()) {
         let sb = cfg.sb;
-        let enc_idx = 1 + k;
-        let dec_idx = enc_idx + 1 + ngo + ngr + 1;
+        let (enc_idx, dec_idx) = (*enc_idx, *dec_idx);
         let (Ans::Ok(encp), Ans::Ok(decp)) = (&run.answers[enc_idx], &run.answers[dec_idx]) else {
             ctx.oracle_fail(format!("encode/decode failed at shard size {}", sb), case, None);
             continue;
